@@ -213,7 +213,26 @@ func checkC12(p *Prog, r *Report) {
 	}
 	fNext := p.Field("fecEncoder", "next")
 	fEPaws := p.Field("fecEncoder", "paws")
-	for _, st := range p.FieldStores(fNext) {
+	nextStores := p.FieldStores(fNext)
+	// two-statement form: next += k (or next = next + k) immediately followed by next %= paws (or next = next % paws)
+	isReduce := func(n ast.Node) bool {
+		as, ok := n.(*ast.AssignStmt)
+		if !ok || len(as.Lhs) != 1 || len(as.Rhs) != 1 {
+			return false
+		}
+		if lt := p.Term(as.Lhs[0]); lt.Op != "fld" || lt.Obj != fNext {
+			return false
+		}
+		rt := p.Term(as.Rhs[0])
+		switch as.Tok {
+		case token.REM_ASSIGN:
+			return termHasField(rt, fEPaws) && rt.Op == "fld"
+		case token.ASSIGN:
+			return rt.Op == "%" && rt.Args[0].Key() == p.Term(as.Lhs[0]).Key() && rt.Args[1].Op == "fld" && rt.Args[1].Obj == fEPaws
+		}
+		return false
+	}
+	for _, st := range nextStores {
 		if st.Fn.Obj != nil && st.Fn.Name == "newFECEncoder" {
 			continue
 		}
@@ -222,6 +241,33 @@ func checkC12(p *Prog, r *Report) {
 			t := p.Term(st.Rhs)
 			if t.Op == "%" && termHasField(t.Args[1], fEPaws) && t.Args[0].Op == "+" && termHasField(t.Args[0], fNext) {
 				ok = true
+			}
+		}
+		if !ok {
+			cf := p.CFG(st.Fn)
+			if pt, okp := cf.PointOf(st.Node); okp {
+				if isReduce(st.Node) && pt.I > 0 {
+					// the reducing half: the statement before it is an unreduced advance of next
+					if as, isA := pt.B.Nodes[pt.I-1].(*ast.AssignStmt); isA && len(as.Lhs) == 1 && p.Term(as.Lhs[0]).Key() == p.Term(st.Node.(*ast.AssignStmt).Lhs[0]).Key() && (as.Tok == token.ADD_ASSIGN || as.Tok == token.ASSIGN) {
+						ok = true
+					}
+					if _, isI := pt.B.Nodes[pt.I-1].(*ast.IncDecStmt); isI {
+						ok = true
+					}
+				} else if pt.I+1 < len(pt.B.Nodes) && isReduce(pt.B.Nodes[pt.I+1]) {
+					// the advancing half: next += k / next = next + k / next++
+					switch n := st.Node.(type) {
+					case *ast.IncDecStmt:
+						ok = n.Tok == token.INC
+					case *ast.AssignStmt:
+						if n.Tok == token.ADD_ASSIGN {
+							ok = true
+						} else if n.Tok == token.ASSIGN && st.Rhs != nil {
+							t := p.Term(st.Rhs)
+							ok = t.Op == "+" && termHasField(t, fNext)
+						}
+					}
+				}
 			}
 		}
 		detail := "(next + k) % paws"
